@@ -2,6 +2,7 @@ import BufModel.Config
 import Driver.Util
 import Driver.C16Node
 import Driver.C16Gen
+import Driver.C16Mig
 /-
   Line protocol of C16 (fields TAB-separated; a Node is one field, see Driver/C16Node.lean):
 
@@ -20,6 +21,8 @@ import Driver.C16Gen
        migrator is `migrateFile (equivLint enabledOf) (equivBreaking enabledOf)` (as coded after
        the fix: a disabled check config stays disabled, theorem migrate_keeps_disabled) and the
        flags of the v2 modules are those the v2 reader returns for the written file
+    migchk <mode> <v1beta1|v1> <lint section> <breaking section> <lint hint> <breaking hint>
+                                     -> see lean/Driver/C16Mig.lean (rule selection through `buf config migrate`)
 
   ext doc layouts (positional):
     lint      ( use except ignore ignoreOnly enumZero rpcSame rpcReq rpcResp svcSuffix commentFlag disableBuiltin )
@@ -309,6 +312,8 @@ def handle : List String → String
       | some n => Driver.C16Gen.handleGen n | none => "bad-node"
   | ["migws", a, b] => match parse a, parse b with
       | some x, some y => handleMigWs x y | _, _ => "bad-node"
+  | ["migchk", mode, ver, a, b, c, d] => match parse a, parse b, parse c, parse d with
+      | some l, some br, some hl, some hb => Driver.C16Mig.handleMigChk mode ver l br hl hb | _, _, _, _ => "bad-node"
   | _ => "bad-op"
 
 def run : IO Unit := runLines handle
